@@ -242,10 +242,14 @@ type replayInfo struct {
 	PrefixGens int64  // generator calls run From had made when that checkpoint was written
 }
 
+// gen is called by every state generator. A generator is user code that may take time
+// (allocate, load, ...): a seeded yield / sleep makes the moment the state object comes into
+// being a window other goroutines of the same run (and other runs) can fall into.
 func (h *rec) gen(ctx context.Context) {
 	h.mu.Lock()
 	h.gens[runOf(ctx)]++
 	h.mu.Unlock()
+	h.yield()
 }
 
 func (h *rec) gensOf(run int) int64 {
